@@ -4,6 +4,11 @@ mod codec;
 pub use crate::client::{Client, TlsClient};
 pub use crate::codec::ResponseData;
 
+#[cfg(feature = "djc_tokio_imap_verif")]
+pub use crate::client::ResponseStream;
+#[cfg(feature = "djc_tokio_imap_verif")]
+pub use crate::codec::ImapCodec;
+
 pub mod builders {
     pub use imap_proto::builders::command::{fetch, CommandBuilder, FetchCommand};
 }
